@@ -112,3 +112,57 @@ def ev(node, env, hook=None):
             if isinstance(base, dict):
                 return getattr(base, fn.attr)(*[ev(a, env, hook) for a in node.args])
     raise Unknown('abstract evaluation: unsupported expression %s (%s)' % (unparse(node)[:80], loc(node)))
+
+
+class Opaque:
+    """Non-None token for values the evaluator cannot compute."""
+    def __repr__(self):
+        return '<opaque>'
+
+
+def track_block(body, env, tracked, on_eval=None, hook=None):
+    """Abstractly interpret a statement list over `env`, tracking assignments to the `tracked` names.  Guards
+    must be decidable on env (else Unknown); uncomputable values become Opaque().  Returns 'return'/'raise'
+    when the block leaves the function, else None."""
+    from .core import stmt_text
+    for st in body:
+        if isinstance(st, ast.If):
+            c = ev(st.test, env, hook)
+            if on_eval:
+                on_eval()
+            r = track_block(st.body if c else st.orelse, env, tracked, on_eval, hook)
+            if r:
+                return r
+        elif isinstance(st, (ast.Assign, ast.AnnAssign)):
+            targets = st.targets if isinstance(st, ast.Assign) else [st.target]
+            if st.value is None:
+                continue
+            for t in targets:
+                pairs = []
+                if isinstance(t, ast.Tuple) and isinstance(st.value, ast.Tuple) and len(t.elts) == len(st.value.elts):
+                    pairs = list(zip(t.elts, st.value.elts))
+                else:
+                    pairs = [(t, st.value)]
+                for a, b in pairs:
+                    nm = unparse(a)
+                    if nm in tracked:
+                        try:
+                            env[nm] = ev(b, env, hook)
+                        except Unknown:
+                            env[nm] = Opaque()
+        elif isinstance(st, ast.Return):
+            if '<return>' in tracked:
+                try:
+                    env['<return>'] = ev(st.value, env, hook) if st.value is not None else None
+                except Unknown:
+                    env['<return>'] = Opaque()
+            return 'return'
+        elif isinstance(st, ast.Raise):
+            return 'raise'
+        elif isinstance(st, ast.Expr) and isinstance(st.value, ast.Call) and unparse(st.value.func) in ('sys.exit',):
+            return 'raise'
+        elif isinstance(st, (ast.For, ast.While, ast.Try, ast.With)):
+            for n in ast.walk(st):
+                if isinstance(n, ast.Assign) and any(unparse(t) in tracked for t in n.targets):
+                    raise Unknown('tracked variable assigned inside a compound statement: %s' % stmt_text(st))
+    return None
